@@ -1,6 +1,6 @@
 //! C12 — entering a program line by line interactively equals running it whole.
 
-use super::c11::{safe_output, split_transcript};
+use super::c11::{calibrate, safe_output, split_transcript};
 use crate::engine::*;
 use crate::gen::*;
 use crate::proc;
@@ -253,16 +253,17 @@ pub fn check(c: &Case12, st: &mut Stats, bin: &std::path::Path, scratch: &std::p
         }
     }
     let transcript = r.out_str();
-    let (_, chunks) = split_transcript(&transcript);
+    let cal = calibrate(bin, scratch, true);
+    let (_, chunks) = split_transcript(&transcript, &cal.prompt);
     ensure!(chunks.len() == sim.expect.len(), "c12:prompts", "the interpreter prompted {} times, the model expects {} on {}; transcript {:?}", chunks.len(), sim.expect.len(), shown(), transcript);
     for (i, (got, want)) in chunks.iter().zip(sim.expect.iter()).enumerate() {
         let at = || format!("line #{} `{}` of {}", i, sim.script.get(i).cloned().unwrap_or_default(), shown());
         let (mut out, mut err) = (String::new(), String::new());
         let mut other = false;
         for l in got.lines() {
-            if let Some(x) = l.strip_prefix("[stdout] ") {
+            if let Some(x) = l.strip_prefix(cal.out_tag.as_str()) {
                 out.push_str(x);
-            } else if let Some(x) = l.strip_prefix("[stderr] ") {
+            } else if let Some(x) = l.strip_prefix(cal.err_tag.as_str()) {
                 err.push_str(x);
             } else if !l.is_empty() {
                 other = true;
